@@ -49,7 +49,12 @@ fn ref_components(t: &TD, with_placeholder: bool) -> (Vec<String>, bool) {
             }
             (cs, true)
         }
-        // symmetric statements keep their operands in stored order for component access
+        // symmetric statements are unordered: their two operands are compared as a multiset
+        Shape::BinSym => {
+            let mut cs: Vec<String> = t.kids.iter().map(|k| k.canon()).collect();
+            cs.sort();
+            (cs, false)
+        }
         _ => (t.kids.iter().map(|k| k.canon()).collect(), true),
     }
 }
